@@ -57,7 +57,7 @@ pub fn run_grp() {
         let full: Vec<String> = names.iter().map(|n| n.replace('=', " = ")).collect();
         let names: Vec<String> = names.iter().map(|n| n.rsplit('=').next().unwrap().to_string()).collect();
         let lc: Vec<String> = names.iter().map(|n| n.to_lowercase()).collect();
-        if hdr[0] == 204 { impl_rows(&full, &lc, nmand, nopt); continue; }
+        if hdr[0] == 204 { impl_rows(&full, &lc, nmand, nopt, hdr.get(2).copied().unwrap_or(0)); continue; }
         let src = format!("cglue_trait_group!(G, {{ {} }}, {{ {} }});", full[..nmand].join(", "), full[nmand..].join(", "));
         let res = std::panic::catch_unwind(|| {
             let f = syn::parse_file(&src).expect("group definition parses");
@@ -136,12 +136,17 @@ pub fn run_grp() {
 /// '204 <nmand> | names': cglue_impl_group!(T, G, { listed }, { listed }) through the REAL TraitGroupImpl for every subset of the optional traits, the
 /// traits listed in REVERSE input order.  Row per subset: [mask, vtables enabled by fill_table, number of enable calls, the same two for the Fwd
 /// filler, traits named by the where-bounds of fill_table, enable calls that name no optional trait of the group]
-fn impl_rows(full: &[String], lc: &[String], nmand: usize, nopt: usize) {
+/// header field 3 (forward mode): 0 the forward list equals the owned list; 1 three-argument form (no forward list: no Fwd filler at all);
+/// 2 the forward list is the COMPLEMENT of the owned list; 3 the owned list rotated by one position — the two lists are independent
+fn impl_rows(full: &[String], lc: &[String], nmand: usize, nopt: usize, fm: i64) {
     let mut rows: Vec<Vec<i64>> = vec![];
     for mask in 0..(1i64 << nopt) {
         let listed: Vec<&String> = (0..nopt).rev().filter(|b| mask & (1 << b) != 0).map(|b| &full[nmand + b]).collect();
         let l = listed.iter().map(|s| s.as_str()).collect::<Vec<_>>().join(", ");
-        let src = format!("T, G, {{ {} }}, {{ {} }}", l, l);
+        let fmask = match fm { 2 => ((1i64 << nopt) - 1) - mask, 3 => if nopt == 0 { 0 } else { mask / 2 + (mask % 2) * (1i64 << (nopt - 1)) }, _ => mask };
+        let flisted: Vec<&String> = (0..nopt).rev().filter(|b| fmask & (1 << b) != 0).map(|b| &full[nmand + b]).collect();
+        let fl = flisted.iter().map(|s| s.as_str()).collect::<Vec<_>>().join(", ");
+        let src = if fm == 1 { format!("T, G, {{ {} }}", l) } else { format!("T, G, {{ {} }}, {{ {} }}", l, fl) };
         let res = std::panic::catch_unwind(|| syn::parse_str::<cglue_gen::trait_groups::TraitGroupImpl>(&src).map(|g| g.implement_group().to_string()));
         let exp = match res { Ok(Ok(e)) => e, Ok(Err(_)) => { rows.push(vec![mask, -8]); continue; } Err(_) => { rows.push(vec![mask, -7]); continue; } };
         let file = match syn::parse_file(&exp) { Ok(f) => f, Err(_) => { rows.push(vec![mask, -8]); continue; } };
@@ -154,7 +159,9 @@ fn impl_rows(full: &[String], lc: &[String], nmand: usize, nopt: usize) {
                 let body = norm(&m.block);
                 // the body is `table.enable_a().enable_b()...`
                 let mut em = 0; let mut cnt = 0;
-                if !body.starts_with("{table") { em = -2; }
+                // the chain starts at the function's own parameter (whatever it is called)
+                let pname = m.sig.inputs.iter().find_map(|a| if let FnArg::Typed(p) = a { Some(norm(&p.pat).trim_start_matches("mut").to_string()) } else { None }).unwrap_or_else(|| "table".into());
+                if !body.starts_with(&format!("{{{}.", pname)) && body != format!("{{{}}}", pname) { em = -2; }
                 for call in body.split(".enable_").skip(1) {
                     let n: String = call.chars().take_while(|c| c.is_alphanumeric() || *c == '_').collect();
                     cnt += 1;
